@@ -15,6 +15,12 @@ from mbt.drive import opc as D
 # "accessors documented as creating content": the docstring itself says that reading the property creates / is destructive
 CREATING = re.compile(r"destructive|side[- ]effect|one is created|newly created if|newly created with its|are created if|is added if|"
                       r"to be added if not present|element if not present|adds an? ", re.I)
+# second opinion on an accessor that DID change the package when read: does its docstring, in any wording, say that reading it
+# creates / adds / inserts something?  Then it is "documented as creating" (a reworded docstring must not raise an alarm); it is
+# consulted only for accessors already caught mutating, so its breadth cannot hide a getter whose docstring promises a plain read
+LENIENT = re.compile(r"creat|\badd(s|ed|ing)?\b|insert|if (it is |one is )?not (already |yet )?present|destructive|side[- ]effect|"
+                     r"\bmade\b|\bmakes\b|lazily|on first (access|use)|when (first )?accessed", re.I)
+LENIENT_DOCUMENTED: set = set()
 SKIP_NAMES = {"part", "package", "element", "xml", "blob"}      # navigation into the packaging layer / raw serialisation
 GROUP_MODULES = {
     "slides": ("pptx.presentation", "pptx.slide"),
@@ -51,8 +57,33 @@ def accessors(cls):
         # of notes_slide): the property names them as part of the read surface
         is_pred = name.startswith("has_") or name.startswith("is_")
         (creating if ((CREATING.search(doc) and not is_pred) or name in EXTRA_CREATING) else read).append(name)
+        if LENIENT.search(doc) and not is_pred:
+            LENIENT_DOCUMENTED.add("%s.%s" % (cls.__name__, name))
     _doc_cache[cls] = (read, creating)
     return _doc_cache[cls]
+
+
+def lenient_documented(acc: str) -> bool:
+    """`Class.attr` (as named in traversal statistics): does the accessor's docstring speak of creating at all?"""
+    import sys
+    import pptx  # noqa: F401
+    cname, attr = acc.split(".", 1)
+    for mname, mod in list(sys.modules.items()):
+        if not mname.startswith("pptx") or mod is None:
+            continue
+        cls = getattr(mod, cname, None)
+        if not isinstance(cls, type):
+            continue
+        try:
+            a = inspect.getattr_static(cls, attr)
+        except AttributeError:
+            continue
+        doc = getattr(a, "__doc__", None) or ""
+        if not doc and isinstance(a, property) and a.fget is not None:
+            doc = a.fget.__doc__ or ""
+        if LENIENT.search(doc):
+            return True
+    return False
 
 
 def in_group(obj, group: str) -> bool:
